@@ -3,7 +3,7 @@
 # 1. saves the change of an independent sub-agent (patch + demonstration + its notes) under /verif/seeded/<seed-id>/
 # 2. confirms in the scratch worktree: builds; the existing lib tests that pass at HEAD still pass; the demonstration
 #    fails with the change and passes without it
-# 3. applies the patch to /repo, runs the quick checks of the given properties, restores /repo
+# 3. applies the patch to a private copy of the repository (tools/private_check.sh) and runs the quick checks of the given properties there
 # prints a JSON summary (also written to /verif/seeded/<seed-id>/meta.json)
 set -u
 ID=$1; WT=$2; shift 2; PROPS="$@"
@@ -54,16 +54,14 @@ ok_seed = res["builds"] and not broken and res["demo_fails_with_change"] and res
 res["accepted_as_seed"] = ok_seed
 # --- run my checks against it
 if ok_seed:
-    assert subprocess.run('git -C /repo status --porcelain', shell=True, stdout=subprocess.PIPE, text=True).stdout.strip()=='' , '/repo not clean'
-    r = subprocess.run('git -C /repo apply /verif/seeded/%s/patch.diff' % sid, shell=True)
-    if r.returncode != 0:
-        res["checks"] = {"error": "patch does not apply to /repo"}
-    else:
-        for p in props:
-            c = subprocess.run('cd /verif && ./check %s' % p, shell=True, stdout=subprocess.PIPE, stderr=subprocess.STDOUT, text=True)
-            sigs = re.findall(r'check: (C\d+\|[^:]*):', c.stdout)
-            res["checks"][p] = {"exit": c.returncode, "signatures": sigs[:4]}
-        subprocess.run('git -C /repo checkout -- . && git -C /repo status --porcelain', shell=True)
+    # on a PRIVATE copy of the repository (tools/private_check.sh): /repo itself is never touched
+    c = subprocess.run('/verif/tools/private_check.sh /verif/seeded/%s/patch.diff %s' % (sid, ' '.join(props)), shell=True, stdout=subprocess.PIPE, stderr=subprocess.STDOUT, text=True)
+    for line in c.stdout.split('\n'):
+        m = re.match(r'\S* ?(C\d+) exit=(\d+) ?(.*)', line.strip())
+        if m:
+            res["checks"][m.group(1)] = {"exit": int(m.group(2)), "signatures": [s.replace('check: ', '') for s in re.findall(r'check: C\d+\|[^ ]*', m.group(3))][:4]}
+    if not res["checks"]:
+        res["checks"] = {"error": c.stdout[-400:]}
 json.dump(res, open('/verif/seeded/%s/result.json' % sid, 'w'), indent=1)
 print(json.dumps(res, indent=1))
 PY
